@@ -619,3 +619,19 @@ package anytype
 //@ instantiate sorted-kind(strings, isWStr, wstr, sle)
 //@ instantiate sorted-kind(floats, isWFloat, wfloat, fle)
 //@   ensures  fluent: result == ego.ptr [C19]
+
+//@ func (*list).Reverse [C17 C05 C19]
+//@   requires invL(ego)
+//@   let n := len(ego.val)
+//@   assigns  list(ego)
+//@   panics_iff false
+//@   ensures  len-kept: len(ego.val) == n
+//@   ensures  mirrored: forall k int :: 0 <= k && k < n ==> ego.val[k] == old(ego.val[n-1-k])
+//@   ensures  same-storage: arr(ego.val) == old(arr(ego.val)) && cap(ego.val) == old(cap(ego.val)) && off(ego.val) == old(off(ego.val))
+//@   ensures  fluent: result == ego.ptr [C19]
+//@   loop 1
+//@     invariant bounds: -1 <= i && i <= n/2 - 1
+//@     invariant hdr: len(ego.val) == n && arr(ego.val) == old(arr(ego.val)) && cap(ego.val) == old(cap(ego.val)) && off(ego.val) == old(off(ego.val)) && ego.ptr == old(ego.ptr)
+//@     invariant swapped: forall k int :: i < k && k < n/2 ==> ego.val[k] == old(ego.val[n-1-k]) && ego.val[n-1-k] == old(ego.val[k])
+//@     invariant untouched: forall k int :: 0 <= k && k < n && (k <= i || (n/2 <= k && k < n-n/2) || n-1-i <= k) ==> ego.val[k] == old(ego.val[k])
+//@     decreases i + 1
